@@ -93,8 +93,11 @@ def run(ctx):
             rng.shuffle(order)
             ctx.count("histories_with_shuffled_import_order")
         specs.append({"seed": ctx.seed * 1000003 + 7 * i + 11, "steps": rng.randint(5, 40), "probes": PROBES, "base_width": 10, "order": order,
-                      "define_dimension": ctx.tier == "thorough" and i % 5 == 0,
-                      "foreign_pickles": blobs[3 * i:3 * i + 3] if not (ctx.tier == "thorough" and i % 5 == 0) else []})
+                      # every fifth history also defines new fundamental dimensions at run time (which re-keys
+                      # every known dimension); those histories load no foreign pickles, whose dimension tuples
+                      # were written for the shipped width
+                      "define_dimension": i % 5 == 0,
+                      "foreign_pickles": blobs[3 * i:3 * i + 3] if i % 5 else []})
     with ThreadPoolExecutor(max_workers=14) as ex:
         results = list(ex.map(run_worker, specs))
     panel = {}   # probe term -> {dimension exponents (as tuple) -> first seed}
